@@ -4,12 +4,16 @@
    layout regenerated from pyc.rs) and Pyc.to_buffer (the writer with structural de-duplication; flags and
    reference numbers assigned in stream order).
 
-   Full statement aimed at (C02_roundtrip):
-       forall ver v, in_domain v -> decode ver (to_buffer (code_layout ver) v) = Ok v
-   where decode follows CPython's rules.  Proved so far are the parts below; until the round trip is closed in
-   Coq it is decided by the differential run plus the independent CPython-rules decoder (lib/pymarshal.py),
-   and the property is reported as partial in MANIFEST.json. *)
-From AD Require Import Bytes Outcome Gen PycHeader PycHeaderProofs Marshal Pyc PycProofs PycRefs.
+   Full statement (C02_roundtrip, C02_rewritten_file_rereads): for every version and every object tree in the
+   domain, reading what the writer produced gives the tree back, references included; the rewritten file has
+   the input's header and its payload is read as the tree the input was read as.  The domain is stated as
+   hypotheses: the tree has the shape the reader produces (wfb: known type codes, 4/8/16-byte scalars, short
+   strings shorter than 256, dict keys that are not NULL, a code object with the fields of its version), its
+   nesting stays within the reader's limit, and the output is shorter than 4 GiB (reference numbers and
+   lengths are 32-bit).  The reader here is the tool's own, as modelled; that it follows CPython's rules is not
+   a theorem: it is decided by the differential run against the independent CPython-rules decoder
+   (lib/pymarshal.py) and the implementation. *)
+From AD Require Import Bytes Outcome Gen PycHeader PycHeaderProofs Marshal Pyc PycProofs PycRefs PycLong PycRoundTrip.
 
 (* the header is copied verbatim *)
 Theorem C02_header_unchanged_partial : forall x y hm ver hl,
@@ -43,6 +47,53 @@ Theorem C02_refs_resolve_partial : forall layout v pre k post,
   to_buffer layout v = render pre refd [] ++ pyc_code_ref :: le_encode 4 (index_in k T 0) ++ render post refd T.
 Proof. exact refs_resolve. Qed.
 
+(* the round trip: for every version, every tree in the domain and whatever follows it in the stream, the
+   reader returns the tree the writer was given and stops exactly at its end *)
+Theorem C02_roundtrip : forall ver v rest f,
+  wfb (code_layout ver) v = true -> (vdepth v <= pyc_max_depth)%nat ->
+  (length (to_buffer (code_layout ver) v) < f)%nat -> N.of_nat (length (to_buffer (code_layout ver) v)) < 4294967296 ->
+  exists r, parse ver f 0 (to_buffer (code_layout ver) v ++ rest) [] = Ok (v, rest, r).
+Proof. exact to_buffer_roundtrip. Qed.
+
+(* end to end through the handler: same header, the payload reads back as the same tree with nothing left over,
+   and the handler finds nothing to change in its own output *)
+Theorem C02_rewritten_file_rereads : forall x y hm ver hl v rest0 r0,
+  pyc_process x = Ok (y, hm) -> pyc_header x = Ok (ver, hl) -> ver_ltb ver pyc_skip_below = false ->
+  parse ver (S (length (skipn hl x))) 0 (skipn hl x) [] = Ok (v, rest0, r0) ->
+  wfb (code_layout ver) v = true -> (vdepth v <= pyc_max_depth)%nat -> N.of_nat (length y) < 4294967296 ->
+  pyc_header y = Ok (ver, hl) /\
+  (exists r, parse ver (S (length (skipn hl y))) 0 (skipn hl y) [] = Ok (v, [], r)) /\
+  pyc_process y = Ok (y, false).
+Proof. exact pyc_reread. Qed.
+
+(* integers of arbitrary size: digit count, sign and base-2^15 digits survive *)
+Theorem C02_long_roundtrip : forall ver layout z rest f,
+  long_ndigits z < 2147483648 -> (N.to_nat (long_ndigits z) <= f)%nat ->
+  parse ver (S f) 0 (to_buffer layout (VLong z) ++ rest) [] = Ok (VLong z, rest, []).
+Proof. exact long_value_roundtrip. Qed.
+
+(* non-vacuity of the domain: a 3.12 tree with a code object, a dict, a slice, a big integer and strings that
+   occur several times (so that the writer emits flags and back-references) meets the hypotheses of
+   C02_roundtrip *)
+Definition C02_sample : value :=
+  let s := VStr 90 [97; 98] in
+  let objs := [VStr 115 [100; 0; 83; 0]; VSeq 40 [VSingle 78; s; VLong (- 1234567890123456789012345)]; VSeq 40 [s]; VSeq 40 []; s; s; s;
+               VStr 115 []; VStr 115 []; VStr 115 [1; 2]] in
+  VSeq 40 [VCode [[0;0;0;0]; [0;0;0;0]; [0;0;0;0]; [1;0;0;0]; [3;0;0;0]; [1;0;0;0]] objs;
+           VDict [s; VSlice (VInt [1;0;0;0]) (VSingle 78) s; VFloat [0;0;0;0;0;0;240;63]; VSeq 91 [s; VSingle 84]];
+           VSeq 60 [VComplex [0;0;0;0;0;0;0;0;0;0;0;0;0;0;240;63]]].
+Example C02_sample_in_domain :
+  let lay := code_layout (3, 12) in
+  wfb lay C02_sample = true /\ (vdepth C02_sample <= pyc_max_depth)%nat /\
+  N.of_nat (length (to_buffer lay C02_sample)) < 4294967296 /\
+  (2 <= length (refd_of (toks_of lay C02_sample)))%nat /\
+  parse (3, 12) (S (length (to_buffer lay C02_sample))) 0 (to_buffer lay C02_sample) [] =
+    Ok (C02_sample, [], map Some (flagged (toks_of lay C02_sample) (refd_of (toks_of lay C02_sample)))).
+Proof.
+  cbv zeta. split; [vm_compute; reflexivity|]. split; [apply Nat.leb_le; vm_compute; reflexivity|].
+  split; [vm_compute; reflexivity|]. split; [apply Nat.leb_le; vm_compute; reflexivity|]. vm_compute. reflexivity.
+Qed.
+
 (* the de-duplication key of the writer is structural equality *)
 Theorem C02_writer_equality : forall a b, veqb a b = true <-> a = b.
 Proof. intros a b. split; [apply veqb_true | intros ->; apply veqb_refl]. Qed.
@@ -73,6 +124,10 @@ Print Assumptions C02_header_unchanged_partial.
 Print Assumptions C02_output_depends_on_tree_only_partial.
 Print Assumptions C02_refs_point_back_partial.
 Print Assumptions C02_refs_resolve_partial.
+Print Assumptions C02_roundtrip.
+Print Assumptions C02_rewritten_file_rereads.
+Print Assumptions C02_long_roundtrip.
+Print Assumptions C02_sample_in_domain.
 Print Assumptions C02_writer_equality.
 Print Assumptions C02_old_versions_untouched.
 Print Assumptions C02_skip_bound.
